@@ -53,6 +53,11 @@ PY_FILES = [
     "src.py",
     "venv.py",
     "dist.bak/d.py",
+    # a hidden directory / file beside a directory / file of the same name without the dot
+    ".ci/deploy.py",
+    "ci/build.py",
+    ".hid.py",
+    "hid.py",
 ]
 OTHER_FILES = {"notes.txt": SRC, "src/a.pyi": SRC, "src/data.json": b'{"k": 1}\n', "src/noext": SRC}
 LINKS = {
@@ -72,6 +77,11 @@ DEFAULT_EXCLUDES = [  # documented defaults: test, build, virtualenv and VCS dir
 
 PATTERNS = ["*.py", "**/*.py", "src/**", "src/*.py", "tests/**", "*a.py", "src/a.py:2", "**/a.py:2", "nomatch/**"]
 
+# patterns spelled with a leading './' (shell completion, find, git ls-files): either they are matched literally (and
+# then match nothing, relative paths never start with './') or the './' is taken off - both readings are accepted, no
+# third one; crossed with hidden names, where stripping characters instead of the prefix shows
+DOT_PATTERNS = ["./.ci/*.py", "./src/*.py", ".ci/*.py", "./.venv/**", "./.hid.py", "././src/**", "./*a.py", "./.ci/deploy.py:2"]
+
 MODES = {
     "fix": "pixee:python/use-generator",
     "semgrep": "pixee:python/secure-random",
@@ -87,7 +97,15 @@ def tree():
     return files
 
 
-def ref_select_paths(include, exclude, mode):
+def _undot(p):
+    while p.startswith("./"):
+        p = p[2:]
+    return p
+
+
+def ref_select_paths(include, exclude, mode, undot=False):
+    if undot:
+        include, exclude = [_undot(p) for p in include], [_undot(p) for p in exclude]
     inc = [p.split(":")[0] for p in include]
     exc = [p for p in exclude if ":" not in p]
     if mode != "sonar" and not exclude:
@@ -150,6 +168,8 @@ def judge(cfg, obs):
     before, after = obs.before, obs.final
     changed = {f for f in set(before) | set(after) if before.get(f) != after.get(f)}
     expected = ref_select_paths(include, exclude, mode)
+    if changed != expected and changed == ref_select_paths(include, exclude, mode, undot=True):
+        expected = changed  # the './' prefix was taken off the patterns: the other accepted reading
     extra, missing = sorted(changed - expected), sorted(expected - changed)
     if extra:
         out.append((f"{base}|extra-files", f"files changed although not selected: {extra[:6]}"))
@@ -216,6 +236,13 @@ def configs(tier):
             for inc in l1:
                 for exc in l1:
                     cfgs.append(("semgrep", pr, inc, exc))
+    for mode in ("fix", "sonar"):
+        for p in DOT_PATTERNS:
+            cfgs.append((mode, "proj", (p,), ()))
+            cfgs.append((mode, "proj", (), (p,)))
+            if tier != "quick":
+                for q in ("src/**", "*.py"):
+                    cfgs += [(mode, "proj", (p, q), ()), (mode, "proj", (q,), (p,)), (mode, "tests/venv/proj", (p,), (q,))]
     return list(dict.fromkeys(cfgs))
 
 
@@ -257,6 +284,7 @@ def explore(tier, seed):
         "configurations": len(cfgs),
         "configurations_where_files_changed": nontrivial,
         "pattern_alphabet": PATTERNS,
+        "dot_slash_patterns": DOT_PATTERNS,
         "max_list_length": 1 if tier == "quick" else 2,
         "tree": {"python_files": len(PY_FILES), "other_files": len(OTHER_FILES), "symlinks": sorted(LINKS), "outside_files": sorted(OUTSIDE)},
         "modes": MODES,
@@ -267,6 +295,7 @@ def explore(tier, seed):
     assumptions = [
         "default excludes apply iff the user gave no --path-exclude at all (weakest reading)",
         "patterns are matched with fnmatch semantics against the path relative to the target",
+        "a pattern starting with './' is read either literally or with the './' prefix removed (both accepted)",
         "every triggerable file carries sites on two different lines so that line-level filters (C13's subject) never empty a selected file",
     ]
     return "model_checking", coverage, violations, assumptions
